@@ -372,7 +372,7 @@ def check(ctx):
     accept_max = 5000 if quick else 20000
     psk_max, qam_max = (1 << 10, 4 ** 5) if quick else (1 << 10, 4 ** 6)
     nsamp = 24 if quick else 200
-    core.prove(ctx, MODULE, generated=['Conversion'], drivers=[DRIVER], scratch=ctx.scratch)
+    core.prove(ctx, MODULE, generated=['Conversion', 'C01Formulas'], drivers=[DRIVER], scratch=ctx.scratch)
     ctx.required_branches = ['detection:after-setPhaseOffset', 'detection:boundary', 'detection:near', 'detection:uniform', 'accept:true',
                              'accept:false', 'modulate:error:ValueError', 'modulate:ok']
     try:
